@@ -299,24 +299,26 @@ func (m *multiPacketListener) Acquire() (net.PacketConn, error) {
 		m.pc = pc
 		m.readCh = make(chan readRequest)
 		m.doneCh = make(chan struct{})
-		go func() {
+		// The goroutine only uses the socket and channels it was started with, which
+		// are replaced when the listener is re-acquired after being fully released.
+		go func(pc net.PacketConn, readCh <-chan readRequest, doneCh <-chan struct{}) {
 			buffer := make([]byte, serverUDPBufferSize)
 			for {
-				n, addr, err := m.pc.ReadFrom(buffer)
+				n, addr, err := pc.ReadFrom(buffer)
 				pkt := buffer[:n]
 				select {
-				case req := <-m.readCh:
+				case req := <-readCh:
 					n := copy(req.buffer, pkt)
 					req.respCh <- struct {
 						n    int
 						addr net.Addr
 						err  error
 					}{n, addr, err}
-				case <-m.doneCh:
+				case <-doneCh:
 					return
 				}
 			}
-		}()
+		}(m.pc, m.readCh, m.doneCh)
 	}
 
 	m.count++
@@ -331,6 +333,7 @@ func (m *multiPacketListener) Acquire() (net.PacketConn, error) {
 			if m.count == 0 {
 				close(m.doneCh)
 				m.pc.Close()
+				m.pc = nil
 				if m.onCloseFunc != nil {
 					onCloseFunc := m.onCloseFunc
 					m.onCloseFunc = nil
